@@ -526,6 +526,19 @@ impl LineBuffer {
     }
 
     fn next_word_pos(&self, pos: usize, at: At, word_def: Word, n: RepeatCount) -> Option<usize> {
+        self.next_word_pos_(pos, at, word_def, n, false)
+    }
+
+    /// `range`: the position delimits a range to kill/copy (not a cursor motion): when there is no
+    /// further word, the range extends to the end of the buffer.
+    fn next_word_pos_(
+        &self,
+        pos: usize,
+        at: At,
+        word_def: Word,
+        n: RepeatCount,
+        range: bool,
+    ) -> Option<usize> {
         if pos == self.buf.len() {
             return None;
         }
@@ -565,7 +578,7 @@ impl LineBuffer {
             }
         }
         if wp == 0 {
-            if word_def == Word::Emacs || at == At::AfterEnd {
+            if range || word_def == Word::Emacs || at == At::AfterEnd {
                 Some(self.buf.len())
             } else {
                 match gi {
@@ -769,7 +782,7 @@ impl LineBuffer {
         n: RepeatCount,
         dl: &mut D,
     ) -> bool {
-        if let Some(pos) = self.next_word_pos(self.pos, at, word_def, n) {
+        if let Some(pos) = self.next_word_pos_(self.pos, at, word_def, n, true) {
             let start = self.pos;
             self.drain(start..pos, Direction::Forward, dl);
             true
@@ -1004,7 +1017,7 @@ impl LineBuffer {
                 .prev_word_pos(self.pos, word_def, n)
                 .map(|pos| self.buf[pos..self.pos].to_owned()),
             Movement::ForwardWord(n, at, word_def) => self
-                .next_word_pos(self.pos, at, word_def, n)
+                .next_word_pos_(self.pos, at, word_def, n, true)
                 .map(|pos| self.buf[self.pos..pos].to_owned()),
             Movement::ViCharSearch(n, cs) => {
                 let search_result = match cs {
